@@ -1,3 +1,4 @@
+import WK.Spec.C31
 /-
   C31 — model of the Online Delivery runtime (core only).
 
@@ -159,5 +160,29 @@ def srun (shardOf : Nat → Nat) : SSt → List SL → Option SSt
   | st, l :: ls => match sstep shardOf st l with
     | some st' => srun shardOf st' ls
     | none => none
+
+/-! ### the judge events a run of `retryLoop` produces -/
+
+def dispCode : Disp → Nat
+  | .accepted => 1
+  | .retryable => 2
+  | .dropped => 3
+
+/-- routes with the owner's dispositions; a route the answer does not mention counts as dropped
+    (exactly how `retryableOf` reads a short answer) -/
+def zipAtt : List Route → List Disp → List RouteAtt
+  | [], _ => []
+  | r :: rs, [] => (r.uid, r.node, r.sess, 3) :: zipAtt rs []
+  | r :: rs, d :: ds => (r.uid, r.node, r.sess, dispCode d) :: zipAtt rs ds
+
+/-- the judge events one `pushWithRetry` produces: one owner-push event per attempt -/
+def retryEvents (orc : Oracle) (m owner : Nat) : Nat → Nat → List Route → List Ev
+  | 0, _, _ => []
+  | fuel+1, k, routes =>
+    match orc k routes with
+    | some ds => Ev.remote m owner true (zipAtt routes ds) ::
+        (if retryableOf routes ds = [] then [] else retryEvents orc m owner fuel (k+1) (retryableOf routes ds))
+    | none => Ev.remote m owner false (zipAtt routes []) :: retryEvents orc m owner fuel (k+1) routes
+
 
 end WK.C31
